@@ -97,7 +97,7 @@ static struct {
         int   stall_declared;            /* phase stall: the client is not reading by script */
         int   conn_gen;
 } C[NCL];
-static int frames_left, last_was_step;
+static int frames_left, last_was_step, spin_seen;
 static const char *vkey = "sched";
 static char sched_desc[200];
 static long n_select, n_select_total;
@@ -242,7 +242,8 @@ static void audit_device(void)
 
 /* ---- events ------------------------------------------------------------------------------- */
 
-enum { EV_RUN, EV_DRAIN, EV_PART, EV_STEP, EV_HALF, EV_FRAME, EV_SENDCAP };
+enum { EV_RUN, EV_DRAIN, EV_PART, EV_STEP, EV_HALF, EV_FRAME, EV_SENDCAP, EV_ACQ };
+static int use_thread;          /* phases *-thread: the device has no select() support, the daemon uses its acquisition thread (sequentialised, see proxyd_env.h) */
 struct ev { int kind, c; };
 static int opt_part, opt_half, opt_sendcap;      /* which deviation kinds are offered */
 
@@ -306,7 +307,12 @@ static int sched_hook(int nready)
         struct ev E[24]; int n = 0;
         n_select++;
         audit_queue();
-        if (n_select > 1500) { viol("daemon main loop does not go idle (spins or stops serving)", "more than 1500 select rounds in a %d frame script", SC->nframes); return ENV_EXIT; }
+        /* a daemon that spins makes every execution 1500 choice points long and the deviation-bounded search explode:
+         * the verdict is recorded once, the remaining executions of this worker's shard end at their first select() */
+        if (spin_seen) return ENV_EXIT;
+        if (n_select > 1500) { viol("daemon main loop does not go idle (spins or stops serving)", "more than 1500 select rounds in a %d frame script", SC->nframes); spin_seen = 1; return ENV_EXIT; }
+        /* canonical: the acquisition thread takes a waiting frame at once, then the main loop runs */
+        if (env_acq_enabled()) { E[n].kind = EV_ACQ; E[n++].c = 0; }
         if (nready > 0) { E[n].kind = EV_RUN; E[n++].c = 0; }
         for (int c = 0; c < SC->nclients; c++) if (readable(c) || eof_pending(c)) { E[n].kind = EV_DRAIN; E[n++].c = c; }
         int first_frame = last_was_step;
@@ -323,9 +329,10 @@ static int sched_hook(int nready)
                 /* nothing can happen any more */
                 return ENV_EXIT;
         }
-        if (E[0].kind != EV_RUN && nready == 0) audit_device();
+        if (E[0].kind != EV_RUN && E[0].kind != EV_ACQ && nready == 0) audit_device();
         int k = mc_choose(n);
         switch (E[k].kind) {
+        case EV_ACQ: env_acq_iteration(); return ENV_REPOLL;
         case EV_RUN: return ENV_RUN;
         case EV_DRAIN: env_read(E[k].c, -1); examine(E[k].c); return ENV_REPOLL;
         case EV_PART: env_read(E[k].c, 100); examine(E[k].c); return ENV_REPOLL;
@@ -378,7 +385,7 @@ static void sched_body(void *arg)
         const struct script *sc = arg;
         SC = sc; memset(C, 0, sizeof C); for (int c = 0; c < NCL; c++) C[c].last_frame = -1;
         frames_left = sc->nframes; last_was_step = 0; n_select = 0;
-        env_cap.use_thread = 0; env_cap.fail_open = 0; env_buffer_count = 0;
+        env_cap.use_thread = use_thread; env_cap.fail_open = 0; env_buffer_count = 0;
         size_t heap0 = heap_now();
         env_init(); env_on_capture = on_capture; env_hook_fn = sched_hook;
         env_run();
@@ -394,14 +401,15 @@ static void sched_body(void *arg)
 }
 
 struct shard { int script, part, nparts, bound; };
-static struct shard *shards; static int nshards;
+static struct shard *shards; static int nshards, thread_shard0;
 
 static void sched_case(uint64_t idx, void *arg)
 {
-        struct shard *sh = &shards[idx];
+        struct shard *sh = &shards[idx + (arg ? thread_shard0 : 0)];
         snprintf(sched_desc, sizeof sched_desc, "script %d '%s'", sh->script, scripts[sh->script].name);
-        vkey = "sched";
-        mc_case("sched: daemon dies", "%s shard %d/%d bound %d", sched_desc, sh->part, sh->nparts, sh->bound);
+        use_thread = arg != NULL;
+        vkey = use_thread ? "sched-thread" : "sched";
+        mc_case(use_thread ? "sched-thread: daemon dies" : "sched: daemon dies", "%s shard %d/%d bound %d", sched_desc, sh->part, sh->nparts, sh->bound);
         if (!seen_outcomes) seen_outcomes = mc_hset_new();
         mc_explore_shard(sched_body, (void *) &scripts[sh->script], sh->bound, sh->part, sh->nparts);
 }
@@ -417,6 +425,7 @@ static int stall_hook(int nready)
         n_select++;
         audit_queue();
         if (n_select > 20000) { viol("daemon main loop does not go idle", "more than 20000 select rounds"); return ENV_EXIT; }
+        if (env_acq_enabled()) { env_acq_iteration(); return ENV_REPOLL; }      /* acquisition thread variant: the thread takes the frame at once */
         if (nready > 0) return ENV_RUN;
         for (int c = 0; c < ST->nclients; c++) if (readable(c) || eof_pending(c)) { env_read(c, -1); examine(c); return ENV_REPOLL; }
         for (int c = 0; c < ST->nclients; c++) if (step_enabled(c) && C[c].pc < 2) { do_step(c, 0); return ENV_REPOLL; }
@@ -443,11 +452,12 @@ static void stall_case(uint64_t idx, void *arg)
         ST = &stalls[idx];
         static struct script sc; sc = stall_script; sc.nclients = ST->nclients; SC = &sc;
         snprintf(sched_desc, sizeof sched_desc, "stall: -buffers %d, %d clients, client 0 does not read from frame %d to %d%s", ST->buffers, ST->nclients, ST->a, ST->b, ST->svcchange ? ", client 2 changes services meanwhile" : "");
-        vkey = "stall";
-        mc_case("stall: daemon dies", "%s", sched_desc);
+        use_thread = arg != NULL;
+        vkey = use_thread ? "stall-thread" : "stall";
+        mc_case(use_thread ? "stall-thread: daemon dies" : "stall: daemon dies", "%s", sched_desc);
         memset(C, 0, sizeof C); for (int c = 0; c < NCL; c++) C[c].last_frame = -1;
         frames_left = sc.nframes; n_select = 0;
-        env_cap.use_thread = 0; env_cap.fail_open = 0; env_buffer_count = ST->buffers;
+        env_cap.use_thread = use_thread; env_cap.fail_open = 0; env_buffer_count = ST->buffers;
         env_init(); env_on_capture = on_capture; env_hook_fn = stall_hook;
         env_run();
         final_checks();
@@ -670,18 +680,26 @@ int main(int argc, char **argv)
         mc_meta("technique", "stateless deviation-bounded exploration (E1) of the real daemon main loop: every select() call is a scheduling point at which the explorer picks the next environment event; all schedules with <= B deviations from the canonical one are executed; frame ledger oracle independent of the daemon's bookkeeping");
         mc_meta("rule", "an execution = one complete schedule of (script, choice vector); states = executions run to completion, transitions = select() scheduling points executed; distinct = distinct ledger outcomes (who was owed / received which frame with which grant); phase stall: one execution per (buffers, clients, stall interval)");
         mc_meta("bound", "B=%d deviations (one more on script 0; quick: B=3 on script 0, B=2 on the others) over %d scripts (2-3 clients, 4-5 frames; events RUN/DRAIN/PART/STEP/HALF/FRAME/SENDCAP); stall: 36 frames, -buffers {1,2}, 2-3 clients, every stall interval [a,b) on a grid", bound, NSCRIPTS);
-        mc_meta("assume", "daemon explored in-process (daemon/proxyd.c #included), one device, select() variant of the capture path (no acquisition thread); clients are scripted protocol actors that follow the real library's RPC discipline (one request outstanding) over real AF_UNIX socketpairs; the real proxy-client.c is not on the other end");
+        mc_meta("assume", "daemon explored in-process (daemon/proxyd.c #included), one device; phases sched/stall/conform: select() variant of the capture path; phase sched-thread: acquisition thread variant with the thread sequentialised (one iteration of its loop = one environment event at a select() of the main loop; start handshake, pipe wake-up, queue hand-over and stop by cancellation + cleanup handler are the daemon's code; interleavings inside a main loop round are not explored); clients are scripted protocol actors that follow the real library's RPC discipline (one request outstanding) over real AF_UNIX socketpairs; the real proxy-client.c is not on the other end");
         mc_meta("assume", "the simulated device grants requested & {TTX_B, VPS, CC625, WSS625} at every strictness; every frame carries lines of all four services");
 
         /* shards: split each script's exploration by its first deviating choice point */
         /* quick: B=2 on every script and B=3 on script 0; thorough: B=3 on every script and B=4 on script 0 */
         int np = 64;
-        shards = calloc(2 * NSCRIPTS * np, sizeof *shards);
+        shards = calloc(4 * NSCRIPTS * np, sizeof *shards);
         for (int s = 0; s < NSCRIPTS; s++) {
                 int b = mc_tier == MC_THOROUGH ? (s == 0 ? 4 : 3) : (s == 0 ? 3 : 2);
                 for (int p = 0; p < np; p++) { struct shard sh = { s, p, np, b }; shards[nshards++] = sh; }
         }
         mc_pool("sched", nshards, sched_case, NULL, 900);
+        /* the same scripts with a device without select(): acquisition thread variant, one deviation less */
+        { static int thr = 1; int n0 = nshards;
+          for (int s = 0; s < NSCRIPTS; s++) {
+                int b = mc_tier == MC_THOROUGH ? 3 : 2;
+                for (int p = 0; p < np; p++) { struct shard sh = { s, p, np, b }; shards[nshards++] = sh; }
+          }
+          thread_shard0 = n0;
+          mc_pool("sched-thread", nshards - n0, sched_case, &thr, 900); }
 
         int step = mc_tier == MC_THOROUGH ? 1 : 3;
         stalls = calloc(4 * 40 * 40, sizeof *stalls);
@@ -690,6 +708,7 @@ int main(int argc, char **argv)
                         for (int sv = 0; sv <= (ncl == 3); sv++) { struct stallcfg st = { buffers, ncl, a, b, sv }; stalls[nstalls++] = st; }
         stalls = realloc(stalls, (nstalls + 1) * sizeof *stalls);
         mc_pool("stall", nstalls, stall_case, NULL, 60);
+        { static int thr = 1; mc_pool("stall-thread", nstalls, stall_case, &thr, 60); }
         mc_pool("conform", 3, conform_case, NULL, 200);
         return mc_finish();
 }
